@@ -226,6 +226,18 @@ CHECKS = {
              "representatives; TLA+ supplies the enumeration and the expected abstract line.",
         note=TLC_BASE + "; Python json as independent reader; at most two fields deviate from the default per record",
         design="7/C12"),
+    "C18": dict(
+        category="model_checking",
+        technique="TLA+ spec (Console.tla: environment x terminal x options decision table, SGR encoding) enumerated and "
+                  "checked by TLC; each row replayed in a child process on ptys / pipes, each style on AnsiWriter",
+        text="Console.tla defines the colour mode by the documented precedence, Writes = ~tty_only \\/ IsTty(target) and "
+             "Coloured; TLC enumerates all 432 rows and 243 styles and checks NoColorWins, ForceBeatsClicolor, "
+             "PipesPlainInAuto, TtyOnlyIgnoresColour, SgrLength. Each row runs in its own child process with stdout / "
+             "stderr attached to a pty or a pipe and the bytes of both streams are compared (silent, plain text, or "
+             "text with well-formed SGR sequences and a reset after each highlighted group, for all five levels and "
+             "nested highlight groups); each style is sent through AnsiWriter over a Vec under catch_unwind.",
+        note=TLC_BASE + "; unix only; colours per level not compared",
+        design="7/C18"),
 }
 
 NOT_YET = "check not built yet in this round (planned, see DESIGN.md section 7)"
